@@ -118,6 +118,9 @@ def run(chk):
     for i in range(chk.scale(300, 6000)):
         sources.append(gen_c.program(rng, placement=rng.choice(["zp", "zp", "mixed", "abs"]), shorts=rng.random() < 0.3,
                                      inline_rate=0.0, gotos=rng.random() < 0.3).text)
+    # the deterministic idiom matrices (tools/matrix.py): -O0 against -O1..3 on every block
+    import matrix
+    sources += [p.text for p in matrix.all_programs(["update-then-test", "update-then-loop", "comparisons", "far", "switch"])]
     nstates = chk.scale(12, 64)
     for src in sources:
         r0 = h.compile(src, 0)
